@@ -1,6 +1,7 @@
 package main
 
 import (
+	"sync"
 	"bytes"
 	"context"
 	"fmt"
@@ -303,6 +304,57 @@ func TestVerifC29(t *testing.T) {
 				afterOp(o, err, pr, f, where)
 				if !pr.cl.Dead {
 					break
+				}
+			}
+			// two key holders remove each other's key at the same time: at least one key must survive
+			if !r.Failed() && tp.Choose(3) == 0 {
+				var pair []string
+				for _, k := range w.keyNames() {
+					if _, ok := km[k]; ok {
+						pair = append(pair, k)
+					}
+				}
+				if len(pair) >= 2 {
+					ka, kb := pair[0], pair[len(pair)-1]
+					var mu sync.Mutex
+					errs := map[string]error{}
+					for _, job := range [][2]string{{ka, kb}, {kb, ka}} {
+						mine, victim := job[0], job[1]
+						pr := w.newProc("key-remove-concurrent")
+						pr.gopts.Password = km[mine]
+						pr.gopts.KeyHint = mine
+						delay := time.Duration(tp.Choose(3)) * 100 * time.Millisecond
+						pr.start(func(ctx context.Context, g global.Options, term ui.Terminal) error {
+							time.Sleep(delay)
+							return runKeyRemove(ctx, g, []string{victim}, term)
+						}, func(err error) {
+							mu.Lock()
+							errs[mine] = err
+							mu.Unlock()
+						})
+					}
+					w.s.Loop()
+					w.postRun()
+					w.s.Count("probe:concurrent-key-removes")
+					where := fmt.Sprintf("history %v then the holders of keys %s and %s remove each other's key at the same time (results: %v, %v)", hist, ka[:8], kb[:8], errs[ka], errs[kb])
+					for k := range km {
+						if w.store.Get(backend.Handle{Type: backend.KeyFile, Name: k}) == nil {
+							delete(km, k)
+						}
+					}
+					if len(w.keyNames()) == 0 {
+						r.Fail("working-key", "no-key-left", "%s: no key file is left in the repository", where)
+					}
+					// the world continues with a password that still works
+					for _, k := range w.keyNames() {
+						if pw, ok := km[k]; ok {
+							w.pw = pw
+						}
+					}
+					if !r.Failed() {
+						w.recoverLocksWith(where)
+						w.judgeKeys(km, universe, where)
+					}
 				}
 			}
 			// a key switch inside one process that fails when the config is loaded with the new key: the key
